@@ -870,6 +870,11 @@ impl<S: MSub + Send> System for MSys<S> {
     fn may_inject(&self, o: &MObj<S>) -> bool {
         o.inj_used < self.inj_budget
     }
+    fn step_allowed(&self, o: &MObj<S>, op: u32) -> bool {
+        let mut v = vec![];
+        self.enabled(o, &mut v);
+        v.contains(&op)
+    }
     fn twin(&self, hist: &[Step], cx: &mut Cx) -> Option<MObj<S>> {
         if !self.f.o_twin {
             return None;
